@@ -19,7 +19,35 @@ class Plugin(HistPlugin):
     FINDING_BITS = 4 | 8
     UNDECIDED_BITS = 1 | 2 | 16
 
+    def gen_focus_id_moves(self, rng):
+        """every route by which an update could land a value on _id: $set / $inc / $rename TO _id,
+        $rename FROM _id, replacements with another _id - then inserts and lookups on both ids"""
+        ops = [{'op': 'clock', 't': 0}]
+        for i in (1, 5):
+            ops.append({'op': 'insert_one', 'doc': {'_id': i, 'legacy': rng.choice([2, 5, 6]), 'n': i}})
+        u = rng.choice([{'$rename': {'legacy': '_id'}}, {'$rename': {'legacy': '_id'}}, {'$rename': {'_id': 'old'}},
+                        {'$set': {'_id': 2}}, {'$inc': {'_id': 1}}, {'$rename': {'n': '_id.x'}},
+                        {'$set': {'n': 3}, '$rename': {'legacy': '_id'}}])
+        k = rng.random()
+        if k < 0.6:
+            ops.append({'op': 'update', 'filter': {'_id': rng.choice([1, 5])}, 'update': u,
+                        'multi': rng.random() < 0.3, 'upsert': False})
+        elif k < 0.8:
+            ops.append({'op': 'fam', 'kind': 'update', 'filter': {'_id': 1}, 'arg': u, 'proj': None, 'sort': [],
+                        'upsert': False, 'after': True})
+        else:
+            ops.append({'op': 'replace', 'filter': {'_id': 1}, 'repl': {'_id': 2, 'n': 9}, 'upsert': False})
+        for _ in range(rng.choice([2, 3])):
+            j = rng.choice([1, 2, 5, 6])
+            ops.append(rng.choice([
+                {'op': 'insert_one', 'doc': {'_id': j, 'n': 0}},
+                {'op': 'find', 'filter': {'_id': j}, 'proj': None, 'sort': [], 'skip': 0, 'limit': 0, 'via': 'kwargs'},
+                {'op': 'delete', 'filter': {'_id': j}, 'multi': True}]))
+        return {'ops': ops, 'pre5': False}
+
     def gen_case(self, rng, i, tier):
+        if rng.random() < 0.15:
+            return self.gen_focus_id_moves(rng)
         gen.TINY[0] = rng.random() < 0.6
         try:
             return HistPlugin.gen_case(self, rng, i, tier)
